@@ -65,7 +65,7 @@ def _isinstance(it, a, kw, node):
                     return False            # hashlib always binds these to _blake2.blake2b / blake2s
                 return Term("isinstance", (repr(v.fn), tn), "bool")      # sha3_*: OpenSSL-backed or _sha3, build dependent
             raise AnalysisError(f"{it.where(node)}: isinstance of a hash object against {T.qual}")
-        if tn not in ("int", "bytes", "bool", "str", "bytearray", "list", "tuple", "float"):
+        if tn not in ("int", "bytes", "bool", "str", "bytearray", "list", "tuple", "float", "memoryview"):
             raise AnalysisError(f"{it.where(node)}: isinstance against {T.qual}")
         if isinstance(v, Term) or hasattr(v, "v_isinstance"):
             if hasattr(v, "v_isinstance"):
@@ -82,7 +82,7 @@ def _isinstance(it, a, kw, node):
         if isinstance(v, (I.Instance, FieldVal, I.SymSeq, ClassInfo, I.Fold)) or is_sym(v):
             return False
         pytypes = {"int": int, "bytes": bytes, "bool": bool, "str": str, "bytearray": bytearray,
-                   "list": list, "tuple": tuple, "float": float}
+                   "list": list, "tuple": tuple, "float": float, "memoryview": memoryview}
         return isinstance(v, pytypes[tn])
     if isinstance(T, ClassInfo):
         if isinstance(v, I.Instance):
@@ -246,6 +246,22 @@ def _classmethod(it, a, kw, node):
 def _hash(it, a, kw, node):
     # an opaque, non-injective integer (for str/bytes it also differs between processes)
     return Term("hash", (_I()._hashable(a[0]),), "int")
+
+
+def _operator_index(it, a, kw, node):
+    """operator.index(x): x.__index__() — the int itself for ints and bools, TypeError for anything else"""
+    x = a[0]
+    if isinstance(x, bool):
+        return int(x)
+    if isinstance(x, int):
+        return x
+    if isinstance(x, Term) and x.sort in ("int", "bool"):
+        return x
+    if hasattr(x, "v_isinstance") and x.v_isinstance("int", it) is True:
+        return x
+    if isinstance(x, (float, str, bytes, bytearray, type(None), list, tuple)):
+        it.raise_exc("TypeError", "object cannot be interpreted as an integer", node)
+    raise AnalysisError(f"{it.where(node)}: operator.index of {x!r}")
 
 
 def _bin(it, a, kw, node):
@@ -764,7 +780,7 @@ def _reduce(it, a, kw, node):
 _NOINIT = object()
 
 _TABLE = {
-    "len": _len, "isinstance": _isinstance, "type": _type, "hasattr": _hasattr, "int": _int, "getattr": _getattr, "iter": _iter, "next": _next, "bin": _bin, "hash": _hash, "staticmethod": _staticmethod, "classmethod": _classmethod, "itertools.islice": _islice, "struct.Struct": _struct_Struct, "struct.pack": _struct_pack,
+    "len": _len, "isinstance": _isinstance, "type": _type, "hasattr": _hasattr, "int": _int, "getattr": _getattr, "iter": _iter, "next": _next, "bin": _bin, "operator.index": _operator_index, "hash": _hash, "staticmethod": _staticmethod, "classmethod": _classmethod, "itertools.islice": _islice, "struct.Struct": _struct_Struct, "struct.pack": _struct_pack,
     "bool": _bool, "range": _range, "zip": _zip, "enumerate": _enumerate, "reversed": _reversed,
     "list": _list, "tuple": _tuple, "sum": _sum, "all": _all, "any": _any, "max": _max, "min": _min,
     "pow": _pow, "bytes": _bytes, "bytearray": _bytearray, "set": _set, "ord": _ord, "repr": _repr,
